@@ -538,8 +538,16 @@ func runTwoHubs(id int, seed int64, nops int) *thResult {
 			last, since = s, time.Now()
 		}
 	}
+	// with a wrong stored SHIP id (or similar) the hubs retry for ever and never settle: what is said about "a stable
+	// point" / "after things settle" (C11 notifications, C18) is judged only when the facts did stop changing
+	settled := time.Since(since) >= 2500*time.Millisecond
 	fa, fb := a.facts(b), b.facts(a)
-	bad := func(p, f string, x ...any) { res.bad = append(res.bad, p+" "+fmt.Sprintf(f, x...)) }
+	bad := func(p, f string, x ...any) {
+		if !settled && (p == "C18" || p == "C11") {
+			return
+		}
+		res.bad = append(res.bad, p+" "+fmt.Sprintf(f, x...))
+	}
 	complete := func(f thFacts) bool { return f.connState == int(model.SmeStateComplete) }
 	// --- payloads over what both consider their connection
 	payloadOK := false
@@ -640,7 +648,7 @@ func runTwoHubs(id int, seed int64, nops int) *thResult {
 	}
 	cfg := fmt.Sprintf("regA=%s regB=%s autoA=%s autoB=%s visA=%s visB=%s pinA=%s pinB=%s higher=%s", b01(reg["A"]), b01(reg["B"]), b01(auto["A"]), b01(auto["B"]),
 		b01(vis["A"]), b01(vis["B"]), map[bool]string{true: "ok", false: "wrong"}[pinOK(a)], map[bool]string{true: "ok", false: "wrong"}[pinOK(b)], map[bool]string{true: "A", false: "B"}[a.ski > b.ski])
-	res.line = fmt.Sprintf("ops=%s | %s | A:%s | B:%s | expectUp=%s payload=%s", strings.Join(res.ops, ","), cfg, fa, fb, b01(expectUp), b01(payloadOK))
+	res.line = fmt.Sprintf("ops=%s | %s | A:%s | B:%s | expectUp=%s payload=%s settled=%s", strings.Join(res.ops, ","), cfg, fa, fb, b01(expectUp), b01(payloadOK), b01(settled))
 	_ = nodes
 	return res
 }
